@@ -23,6 +23,8 @@ RULES = {
              'is compensated by the HTTP loop discarding queued messages on its error arms',
     'C20.c': 'at most one message is queued on the requester\'s channel on any path of a dispatcher arm',
     'C20.d': 'the HTTP clean-up post-dominates the loop; the WebSocket handler calls the request entry once per part',
+    'C20.g': 'the connection count of an HTTP request is released when the request ends: the session-end rules of C17.a (every transport '
+             'calls Client::left on every path, no exit around it, no try-lock on the way to the decrement), repeated for this property',
 }
 
 
@@ -71,6 +73,33 @@ def path_counts(b, start, stops, counted, within=None):
 def run(ck, m):
     _run(ck, m)
     channel_rule(ck, m)
+    # the HTTP request is a whole session: its end must give the connection back (C17.a's session-end rules, repeated here)
+    from nl import report
+    from props import C17
+    tmp = report.Check('C17', 'quick', 0)
+    try:
+        C17.run(tmp, m)
+    except Exception as e_:      # fail closed
+        ck.undecided('C20.g', 'session-end', 'rules', 'C17.a could not be evaluated: %s' % e_)
+    n_ = 0
+    for o in tmp.obs:
+        if o['key'].endswith((':give-back-never-skipped-on-contention', ':no-exit-around-session-end', ':session-end-gives-connection-back')):
+            n_ += 1
+            ck.ob('C20.g', o['key'].split(':')[1], o['key'].split(':', 2)[2], o['verdict'] == 'discharged', o['what'], o['loc'], verdict=o['verdict'])
+    ck.floor('C20.g', n_, 3, 'session-end rules of C17.a')
+    # ... and drop its subscriptions: the closing unwatch-all removes EVERY registration of the session (C03.e)
+    from props import C03
+    tmp3 = report.Check('C03', 'quick', 0)
+    try:
+        C03.run(tmp3, m)
+    except Exception as e_:      # fail closed
+        ck.undecided('C20.g', 'unwatch', 'rules', 'C03.e could not be evaluated: %s' % e_)
+    n3 = 0
+    for o in tmp3.obs:
+        if o['rule'] == 'C03.e' and '<floor>' not in o['key']:
+            n3 += 1
+            ck.ob('C20.g', o['key'].split(':')[1], o['key'].split(':', 2)[2], o['verdict'] == 'discharged', o['what'], o['loc'], verdict=o['verdict'])
+    ck.floor('C20.g', n3, 1, 'unwatch rules of C03.e')
 
 
 def _run(ck, m):
